@@ -532,9 +532,11 @@ class The(ResultQuantifier[T]):
     def _evaluate_(self, sources: Optional[Dict[int, HashedValue]] = None, yield_when_false: bool = False) -> Dict[int, HashedValue]:
         sources = sources or {}
         self._yield_when_false_ = yield_when_false
-        self._child_._eval_parent_ = self
         if self._id_ in sources:
             return sources
+        # every evaluation suppresses duplicates among its own rows only, see An._evaluate__.
+        self._child_._reset_cache_()
+        self._child_._eval_parent_ = self
         sol_gen = self._child_._evaluate__(sources)
         result = None
         for sol in sol_gen:
@@ -600,6 +602,10 @@ class An(ResultQuantifier[T]):
         else:
             self._yield_when_false_ = yield_when_false
             any_yielded = False
+            # every evaluation of a query suppresses duplicates among its own rows only: a nested query is evaluated once per
+            # binding of the enclosing one, and a query used as the domain of a variable is not reached by the reset at the
+            # end of the evaluation that pulled from it.
+            self._child_._reset_cache_()
             self._child_._eval_parent_ = self
             values = self._child_._evaluate__(sources, yield_when_false=self._yield_when_false_)
             for value in values:
